@@ -115,6 +115,8 @@ def programs(rng, quick):
             for dt in ("int16", "float32", "int64"):
                 xs = yi.astype(dt)
                 gu("rolling_sum", lab + f",{dt}", stats.rolling_sum, (xs, rng.randint(1, n), ND), [((n,), "float32")], f32=True)
+            bigx = np.where(yi == ND, ND, 12000 + (yi % 900)).astype("int16")      # window sums beyond the int16 range
+            gu("rolling_sum", lab + ",int16-edge", stats.rolling_sum, (bigx, min(n, 4), ND), [((n,), "float32")], f32=True)
             g = np.array([i % 3 for i in range(n)], dtype="int16")
             for dt in ("float32", "int16", "int32", "int64"):
                 xs = yi.astype(dt)
